@@ -182,6 +182,7 @@ def gen_layout(rng, w, flavour):
     # ---- initial disk
     w['mkdirs'] = ['etc']
     w['files'] = {}
+    w['dirlinks'] = {}
     for d in c['policy_dirs']:
         if d in ('gone.d', 'late.d'):
             continue      # configured but missing (late.d: created later)
